@@ -35,7 +35,7 @@ ASSUMPTIONS = [
     "neutral regime it would be reported as a violation",
 ]
 REQUIRED = {"all": ["clamp_observed", "sentinel_observed", "ratio_in_unit_interval", "cached_dmax_path",
-                    "maximiser_cases", "hill_climb_cases_ge18_neutrals", "ordered_composition_cases"]}
+                    "maximiser_cases", "hill_climb_cases_ge18_neutrals", "ordered_composition_cases", "sweep_compositions"]}
 LC = {"quick": 10, "thorough": 12}
 LP = {"quick": 9, "thorough": 11}
 NRANDOM = {"quick": 1200, "thorough": 5000}
@@ -63,6 +63,9 @@ def cases(tier, seed):
                   [(10, 1, 2), (1, 0, 12), (10, 12, 0)], [(3, 11, 1), (31, 1, 1), (3, 1, 11)]):
         yield {"k": "ordered", "comps": [list(c) for c in group]}
         yield {"k": "ordered", "comps": [list(c) for c in reversed(group)]}
+    # hundreds of distinct compositions in ONE process, then the first ones again (new objects, new spellings):
+    # delta-max must not depend on how many other compositions were analysed in between
+    yield {"k": "sweep", "count": 420 if tier == "quick" else 1500, "again": 80}
     rng = gen.sub_rng(seed, ID, "random")
     # >= 18 neutral residues: exhaustive search is out of reach, so a hill-climb on delta (own reference) looks for an
     # arrangement beating the documented family; there a kappa above 1 would be a violation (no known finding applies)
@@ -223,6 +226,15 @@ def judge(case, rep, S):
         if len(case["s"]) > 60:
             rep.cnt("long_random")
         judge_seq(rep, S, case["s"], case.get("order", 0), "given")
+    elif case["k"] == "sweep":
+        rng = gen.sub_rng(0, "sweep")
+        comps = gen.distinct_compositions(rng, case["count"], 8, 26)
+        for j, (p, n, z) in enumerate(comps + comps[:case["again"]]):
+            pat = [1] * p + [-1] * n + [0] * z
+            rng.shuffle(pat)
+            rep.cnt("sweep_compositions")
+            judge_seq(rep, S, gen.spell(rng, pat), j, "composition #%d of a sweep over %d distinct compositions in one process%s" % (
+                j, len(comps), " (second visit)" if j >= len(comps) else ""))
     elif case["k"] == "ordered":
         # different compositions analysed one after another in one process: delta-max must not leak between them
         rng = gen.sub_rng(0, "ordered", repr(case["comps"]))
